@@ -74,6 +74,7 @@ theorem C03_failed_write_changes_nothing (cfg : PCfg) (ops : List POp) (hv : ∀
   | restart =>
     obtain ⟨e', as, hr, _, _, _⟩ := pRestart_spec e d h
     simp [pStep, hr] at hfail
+  | ioFailed n => simp [pStep]
 
 /-- **An operation is acknowledged only if it is recoverable**: at the moment any operation
     returns, strict recovery of the directory yields exactly the live documents (so an
